@@ -1118,6 +1118,88 @@ def r5_purity(repo: Repo, rep):
 
 
 # ------------------------------------------------------------------ R-C05-13
+def _lower_bound(e: ast.AST):
+    """a lower bound of a tolerance expression whose unknown sub-terms are sizes (>= 0): constants, +, *, max/min, abs; None when no bound follows"""
+    if isinstance(e, ast.Constant) and isinstance(e.value, (int, float)) and not isinstance(e.value, bool):
+        return float(e.value)
+    if isinstance(e, ast.Call):
+        ch = attr_chain(e.func) or ""
+        if ch in ("max", "torch.maximum", "np.maximum", "numpy.maximum") and e.args and not e.keywords:
+            got = [_lower_bound(a) for a in e.args]
+            known = [g for g in got if g is not None]
+            return max(known) if known else None
+        if ch in ("min", "torch.minimum", "np.minimum", "numpy.minimum") and e.args and not e.keywords:
+            got = [_lower_bound(a) for a in e.args]
+            return None if any(g is None for g in got) else min(got)
+        if ch in ("abs", "torch.abs", "float", "torch.tensor", "torch.as_tensor") and e.args:
+            return max(0.0, _lower_bound(e.args[0]) or 0.0) if ch.endswith("abs") else _lower_bound(e.args[0])
+        return 0.0  # an extent, a norm, a length
+    if isinstance(e, ast.BinOp):
+        a, b = _lower_bound(e.left), _lower_bound(e.right)
+        if isinstance(e.op, ast.Add):
+            return None if a is None or b is None else a + b
+        if isinstance(e.op, ast.Mult):
+            return None if a is None or b is None or a < 0 or b < 0 else a * b
+        if isinstance(e.op, ast.Sub):
+            return None  # a difference of sizes has no sign
+        if isinstance(e.op, ast.Pow) and isinstance(e.right, ast.Constant) and isinstance(e.right.value, (int, float)) and e.right.value < 0 \
+                and isinstance(e.left, ast.Constant) and isinstance(e.left.value, (int, float)) and e.left.value > 0:
+            return float(e.left.value) ** float(e.right.value)
+        return None
+    if isinstance(e, (ast.Name, ast.Attribute, ast.Subscript)):
+        return 0.0
+    return None
+
+
+def r14_scale_of_tolerances(repo: Repo, rep, rule_id="R-C05-14"):
+    R = rep.rule(rule_id, "closeness to a quantity that carries the SIZE of the shape (radius, interval bound) keeps a relative tolerance of at least 1e-6; a tolerance attribute "
+                 "computed by a boundary never falls below the float32 resolution of unit coordinates (1e-7) however small the shape; a boundary of a shape with a user tolerance compares with that one", floor=6,
+                 why="the boundary samplers compute their points in float32: a point on a circle of radius 300 is off by 3e-5, a point of a small polygon away from the origin by 1e-7 * |x|. "
+                     "A test that rejects them makes the boundary not contain its own samples, and every Boolean normal / boundary selects the other operand there")
+    bd = repo.cls("problem.domains.domain.BoundaryDomain")
+    for ci in repo.subclasses(bd, strict=True):
+        for mname, fi in sorted(ci.methods.items()):
+            for n in ast.walk(fi.node):
+                if isinstance(n, ast.Call) and (attr_chain(n.func) or "").endswith("isclose") and len(n.args) >= 2:
+                    b = n.args[1]
+                    if isinstance(b, ast.Constant) or (isinstance(b, ast.Call) and (attr_chain(b.func) or "") in ("torch.tensor", "torch.zeros_like", "torch.ones_like", "torch.zeros", "torch.ones")):
+                        continue  # a pure number: R-C05-8
+                    if any(isinstance(x, ast.Call) and isinstance(x.func, ast.Attribute) and x.func.attr == "_solve_lgs" for x in ast.walk(n)):
+                        continue
+                    rt = kwarg(n, "rtol", 2)
+                    rep.saw(fi)
+                    if rt is None:
+                        rep.check(R, True, fi.site(n), fi.fq, "relative tolerance >= 1e-6", "default rtol 1e-5", "")
+                        continue
+                    v = _lower_bound(rt)
+                    rep.check(R, v is not None and v >= 1e-6, fi.site(n), fi.fq, f"closeness to `{dump(b)[:40]}` (scales with the shape) keeps a relative tolerance >= 1e-6",
+                              f"rtol = {dump(rt)}" + ("" if v is None else f" (lower bound {v:g})"), f"rtol {dump(rt)} against {dump(b)[:40]}")
+        # tolerance attributes computed in the class
+        for mname, fi in sorted(ci.methods.items()):
+            for n in ast.walk(fi.node):
+                if isinstance(n, ast.Assign) and any(isinstance(t, ast.Attribute) and attr_chain(t.value) == "self" and "tol" in t.attr.lower() for t in n.targets):
+                    rep.saw(fi)
+                    if isinstance(n.value, ast.Name) and n.value.id in fi.params:
+                        rep.check(R, True, fi.site(n), fi.fq, "tolerance given by the caller", "", "")
+                        continue
+                    v = _lower_bound(n.value)
+                    rep.check(R, v is not None and v >= 1e-7, fi.site(n), fi.fq, "a computed tolerance is at least 1e-7 for every size of the shape", f"{dump(n.value)[:100]}" + ("" if v is None else f" (lower bound {v:g})"),
+                              f"tolerance {dump(n.value)[:80]}")
+        # the user's tolerance of the inner domain is the one compared with
+        inner = _domain_class_of(repo, ci)
+        init = inner.methods.get("__init__") if inner is not None else None
+        if init is not None and "tol" in init.params:
+            for mname, fi in sorted(ci.methods.items()):
+                for n in ast.walk(fi.node):
+                    if isinstance(n, ast.Compare) and len(n.ops) == 1 and isinstance(n.ops[0], (ast.LtE, ast.Lt, ast.GtE, ast.Gt)):
+                        sides = [n.left, n.comparators[0]]
+                        tols = [x for x in sides if "tol" in dump(x).lower()]
+                        if not tols:
+                            continue
+                        rep.saw(fi)
+                        rep.check(R, all(dump(x) == "self.domain.tol" for x in tols), fi.site(n), fi.fq, f"compares with the tolerance the user gave {inner.name} (self.domain.tol)", dump(n)[:80], dump(n)[:80])
+
+
 def r13_mask_combination(repo: Repo, rep):
     R = rep.rule("R-C05-13", "membership answers are combined with torch.logical_and / logical_or / logical_not (defined for every mask dtype) as long as a domain of the package "
                  "answers with a float 0./1. mask; the bitwise operators & | ~ are not defined for those", floor=1,
@@ -1176,6 +1258,7 @@ def r13_mask_combination(repo: Repo, rep):
 
 def run(repo: Repo, rep):
     r13_mask_combination(repo, rep)
+    r14_scale_of_tolerances(repo, rep)
     from .c06 import r7b_edge_table  # the boundary of a polygon is the union of its sides: closeness is tested against the lines that carry them and no other
     r7b_edge_table(repo, rep)
     r1_truth_tables(repo, rep)
